@@ -129,7 +129,8 @@ def run(ctx):
     ctx.coverage["rule"] = ("one Coq evaluation of the index-map model per crystal (dataset fed as data, exact comparison of 7 arrays); a case is "
                             "non-trivial when the centring is not P or the input is a supercell (mapping_to_primitive not injective); distinct by "
                             "sha256 of the crystal description")
-    ctx.coverage["exhaustive"] = "centring algebra: all 230 groups x 5 matrices; index maps: sampled crystals"
+    ctx.coverage["exhaustive"] = False
+    ctx.coverage["exhaustive_part"] = "centring algebra: all 230 groups x 5 matrices (exhaustive); index maps: sampled crystals (not exhaustive)"
     if broken and not nviol:
         ctx.violation({"kind": "proof-obligation-broken", "broken": broken, "centring_offenders": offenders[:20],
                        "searched": "property predicates evaluated on %d crystals (offending groups first): no failing input" % len(cases)},
